@@ -37,7 +37,8 @@ Definition gcf_f (a p : rfld) : fld := fun i j => gcf (a i j) (p i j).
 Definition amp_f (u : fld) : rfld := fun i j => amp (u i j).
 Definition arg_f (u : fld) : rfld := fun i j => arg (u i j).
 Definition setamp_f (u t : fld) : fld := fun i j => set_amplitude (u i j) (t i j).
-Definition rsq (x : rfld) : rfld := fun i j => x i j * x i j.
+Definition rmul_f (x y : rfld) : rfld := fun i j => x i j * y i j.
+Definition rsq (x : rfld) : rfld := fun i j => x i j * x i j.          (* = rmul_f x x by computation *)
 Definition int_f (u : fld) : rfld := fun i j => n2 (u i j).            (* intensity |u|^2 *)
 
 (* the hologram is phase-only: unit amplitude at every sample of the grid *)
